@@ -170,7 +170,7 @@ Predicted(s0, e, included) ==
             IF included THEN (IF upd /\ st.op \notin Flushers THEN FlushOf(TxEff(s0, st.op)) ELSE TxEff(s0, st.op))
             ELSE (IF upd THEN FlushOf(s0) ELSE s0)
       [] st.kind = "epoch" /\ HasFlag(e.flags, ValidationFinishedFlag) -> EpochEff(s0, o)
-      [] st.kind = "final" /\ st.op = "NextPeriod" -> (IF upd THEN FlushOf([s0 EXCEPT !.per = s0.per + 1]) ELSE [s0 EXCEPT !.per = s0.per + 1])
+      [] st.kind = "final" /\ st.op = "NextPeriod" -> (IF upd THEN FlushOf(StartPeriod(s0)) ELSE StartPeriod(s0))
       [] st.kind = "final" /\ st.op = "Penalty" -> [s0 EXCEPT !.pen = "delayed"]
       [] OTHER -> IF upd THEN FlushOf(s0) ELSE s0
 
